@@ -145,6 +145,7 @@ def _worker(args):
     import dealing  # noqa: F401  (registers C10)
     import opener  # noqa: F401  (registers C13)
     import runout  # noqa: F401  (registers C14)
+    import variants  # noqa: F401  (registers C11)
     mons = [monitors.ALL[m] for m in monitor_names]
     r = run.run_batch(seeds, tag, variant, profile, monitors=mons)
     viols = []
